@@ -29,15 +29,27 @@ var lrmSources = map[string]bool{"bytes": true, "byte": true, "adv": true, "stri
 
 func lrmByteKind(src string) bool { return src == "byte" || src == "bytefailend" }
 
-// lrmInExact mirrors `inExact` of Compress/Drv/ReaderApi.lean.
-func lrmInExact(typ, src, cls string) bool {
+// lrmInExact mirrors `inExact` of Compress/Drv/ReaderApi.lean; latched: zr.err != nil after the call.
+func lrmInExact(typ, src, cls string, latched bool) bool {
 	if cls == "eof" {
 		return true
 	}
-	if typ == "bzip2" {
-		return !lrmByteKind(src) || cls == "nil"
+	if typ == "bzip2" && !lrmByteKind(src) {
+		return true
 	}
-	return lrmByteKind(src) && cls == "nil"
+	// "byte" hands Read everything that is left, as the model's raw read takes it; bytefailend hands
+	// out at most 7 bytes per Read, so inside a stored block the Go offset lags behind the model's
+	return src == "byte" && cls == "nil" && !latched
+}
+
+// errLatchedOf reports whether the unexported `err` field of the Reader is non-nil.
+func errLatchedOf(r anyReader) bool {
+	v := reflect.ValueOf(r)
+	if v.Kind() == reflect.Ptr {
+		v = v.Elem()
+	}
+	f := v.FieldByName("err")
+	return f.IsValid() && f.Kind() == reflect.Interface && !f.IsNil()
 }
 
 func intFieldOf(r anyReader, name string) int64 {
@@ -83,7 +95,9 @@ func lrModel(o *Out, id, line, typ, srcKind string, streams []string, fail, etag
 		return "", "", false
 	}
 	inStr := func(cls string) string {
-		if lrmInExact(typ, srcKind, cls) {
+		// inside a stored block (blkLen > 0) the model may already have latched the short read the Go
+		// reader finds with its next step: treated like a latched error on both sides
+		if lrmInExact(typ, srcKind, cls, errLatchedOf(rd) || (typ == "flate" && intFieldOf(rd, "blkLen") > 0)) {
 			return strconv.FormatInt(intFieldOf(rd, "InputOffset"), 10)
 		}
 		return "-"
